@@ -24,6 +24,7 @@ func genAll() {
 	genErrProp()
 	genSaveSrc()
 	genCursorSrc()
+	genMergeSrc()
 	genAccess()
 	genResolveSrc()
 	genResolverSrc()
